@@ -31,6 +31,8 @@ type Op struct {
 	// eps
 	Ready    []string `json:"ready"`
 	NotReady []string `json:"notready"`
+	Ready2   []string `json:"ready2,omitempty"` // ready addresses of a second subset
+	Ports2   []string `json:"ports2,omitempty"`
 	// sec: "crt:<id>" certificate id, "bad" malformed, "auth:<user>:<pass>", "ca:<id>"
 	Sec string `json:"sec"`
 	// cm
@@ -118,7 +120,11 @@ func (o *Op) Object(certs *Certs) (client.Object, error) {
 		return kobj.Service(ns, name, o.Ann, o.Ports...), nil
 	case "eps":
 		ports := o.Ports
-		return kobj.Endpoints(ns, name, o.Ready, o.NotReady, ports...), nil
+		ep := kobj.Endpoints(ns, name, o.Ready, o.NotReady, ports...)
+		if len(o.Ready2) > 0 {
+			ep.Subsets = append(ep.Subsets, kobj.Endpoints(ns, name, o.Ready2, nil, o.Ports2...).Subsets...)
+		}
+		return ep, nil
 	case "sec":
 		data := map[string][]byte{}
 		switch {
